@@ -7,6 +7,42 @@ import sys
 from engine import report, repo
 
 
+def generic_replay(prop, path):
+    """Replay for checks without a case-level replayer: every run is a deterministic function of (tier, seed), which the
+    replay file's name records; the run is repeated with both (evidence and replay files go to a scratch directory) and the
+    recorded violation counts as reproduced when a violation with the same classifying key occurs again."""
+    import json
+    import re
+    import shutil
+    import subprocess
+    import tempfile
+    with open(path) as f:
+        doc = json.load(f)
+    m = re.search(r"violation_(quick|thorough)_(\d+)_\d+\.json$", os.path.basename(path))
+    if not m:
+        raise report.Machinery("cannot tell tier and seed from the replay file name %s" % path)
+    tier, seed = m.group(1), m.group(2)
+    out = tempfile.mkdtemp(prefix="pygomverif_replay_", dir=os.environ.get("TMPDIR", "/tmp"))
+    try:
+        env = dict(os.environ, VERIF_SEED=seed, VERIF_OUT=out)
+        env.pop("PYGOM_SRC", None)
+        subprocess.run([os.path.join(report.VERIF, "check"), prop, "--tier", tier], env=env, stdout=subprocess.PIPE,
+                       stderr=subprocess.STDOUT, text=True)
+        ev_path = os.path.join(out, "evidence", prop + ".json")
+        keys = {}
+        if os.path.exists(ev_path):
+            with open(ev_path) as f:
+                keys = json.load(f)["coverage"].get("violation_keys", {})
+    finally:
+        shutil.rmtree(out, ignore_errors=True)
+    if str(doc.get("key")) in keys:
+        print("VIOLATION property=%s replay=%s" % (prop, path))
+        print("  reproduced (%d violations with key %s): %s" % (keys[str(doc.get("key"))], doc.get("key"), str(doc.get("what"))[:400]))
+        return 1
+    print("not reproduced: no violation with key %s in a re-run of tier %s with seed %s" % (doc.get("key"), tier, seed))
+    return 0
+
+
 def main():
     ap = argparse.ArgumentParser()
     ap.add_argument("prop")
@@ -26,7 +62,9 @@ def main():
         if a.selftest:
             return mod.selftest(seed)
         if a.replay:
-            return mod.replay(a.replay)
+            if hasattr(mod, "replay"):
+                return mod.replay(a.replay)
+            return generic_replay(prop, a.replay)
         rep = report.Report(prop, a.tier, seed, level=getattr(mod, "LEVEL", "model_checking"))
         mod.run(rep, a.tier, seed)
         return rep.finish()
